@@ -38,6 +38,14 @@
 // before the change and after the bound, alias first or target first, with
 // DNSSEC on (insecure victim) and off.
 //
+// Restart scenarios (index >= restartBase, restart.go) drive the resolver's own
+// DS look-ups through a walk that starts again in mid-descent (QNAME
+// minimisation on, a parent that answers DS questions for names below its cut
+// itself and refers late, a referral without DNSSEC records further down that
+// makes the resolver ask for the DS with CD=1, i.e. through the cold partition
+// of the delegation cache) below a delegation whose lease is shorter than its
+// ancestor's; clients ask that DS with CD=1 too. Same oracle.
+//
 // Known finding on the unchanged tree (signatures ceiling/…): the cut
 // deadline that reaches the answer cache on a direct descent lacks the 12 h
 // ceiling — see FINDINGS.md. Anything served past what the referral TTLs
@@ -117,7 +125,7 @@ func main() {
 	r := vlib.Start("C08", "exploration")
 	r.Assume("virtual time = monotonic real time + sum of VerifAdvance steps; steps happen only at quiescent points (no request in flight, prefetch idle, no resolver goroutine active, no detached IPv6 enrichment job pending), so a referral sent before a quiescent point q was observed — and whatever was derived from it stored — no later than q")
 	r.Assume("the observation window of a referral is narrowed to the arrival of the first DNSKEY query for the referring zone only for referrals of level >= 2 and only when the packet log of the whole window shows a single resolution tree at work (no NS-address or root-NS question); the 12 h ceiling is always taken from the end of the full window (sdns caps relative to the instant it stores)")
-	r.Assume("CD=1 partition of the delegation cache (CD=1 clients, sdns's own look-ups below an insecure cut): sdns does not retain the referral's DS there, so its leases are compared with min(NS TTL, ancestors, 12 h); client probes are all CD=0")
+	r.Assume("CD=1 partition of the delegation cache (CD=1 clients, sdns's own look-ups below an insecure cut): sdns does not retain the referral's DS there, so its leases are compared with min(NS TTL, ancestors, 12 h); client probes are all CD=0, except the DS question of the restart scenarios that is asked with CD=1 as well (judged against the later of the two partitions' bounds)")
 	r.Assume("circuit breaker, RTT statistics and RRSIG validity run on the real clock; all servers stay responsive and zones are signed with wide windows")
 	r.Assume("the NS-address (glue) caches of the resolver carry no lifetime and are not part of the virtual clock; the re-pointed generation uses NS host names of its own")
 	run := &runner{r: r}
@@ -150,11 +158,12 @@ func main() {
 
 	n := r.N(60, 1500)
 	nFocus := r.N(16, 300)
+	nRestart := r.N(12, 200)
 	if b := os.Getenv("C08_BATCH"); b != "" {
 		var lo, hi int
 		fmt.Sscanf(b, "%d:%d", &lo, &hi)
 		for i := lo; i < hi; i++ {
-			run.scenario(slotIndex(i, n))
+			run.scenario(slotIndex(i, n, nFocus))
 		}
 		r.Finish(rule)
 		return
@@ -178,8 +187,9 @@ func main() {
 	}
 	type batch struct{ lo, hi int }
 	var batches []batch
-	for lo := 0; lo < n+nFocus; lo += per {
-		batches = append(batches, batch{lo, min(lo+per, n+nFocus)})
+	total := n + nFocus + nRestart
+	for lo := 0; lo < total; lo += per {
+		batches = append(batches, batch{lo, min(lo+per, total)})
 	}
 	sem := make(chan struct{}, workers)
 	var wg sync.WaitGroup
@@ -246,6 +256,17 @@ func main() {
 	r.Require("alias_after_bound_repoint_new_answer", nf)
 	r.Require("alias_derived_from_cached_target", nf/2)
 	r.Require("after_kind/alias-target", nf)
+	// restart scenarios: look-ups of the resolver's own that start again in
+	// mid-descent, below a delegation with a shorter lease than its ancestor's
+	nr := int64(nRestart)
+	r.Require("restart_scenarios_judged", nr*3/4)
+	r.Require("bare_referrals_sent", nr)
+	r.Require("lookups_restarted_in_own_subquery", nr)
+	r.Require("lookups_restarted_in_client_tree", nr/4)
+	r.Require("subquery_entries_after_restart_inspected", nr)
+	r.Require("subquery_entries_after_restart_shorter_than_ancestor", nr/2)
+	r.Require("after_kind/ds-cd1", nr)
+	r.Require("before_change_cd1_ds_answered", nr/2)
 	r.Finish(rule)
 }
 
@@ -266,6 +287,7 @@ func (run *runner) ask(w *world, p probe) (result, bool) {
 	q.SetQuestion(p.Name, p.Type)
 	q.Id = run.nextID()
 	q.RecursionDesired = true
+	q.CheckingDisabled = p.CD
 	q.SetEdns0(1232, p.DO)
 	qb, _ := q.Pack()
 	res := result{from: w.u.Log.Len(), vStart: w.vnow()}
@@ -624,6 +646,10 @@ func (w *world) hotRound(rng *rand.Rand) []probe {
 // ---- one scenario -----------------------------------------------------------
 
 func (run *runner) scenario(index int) {
+	if index >= restartBase {
+		run.runScenario(genRestart(run.r.RandN("scenario", index), run.r.Seed, index))
+		return
+	}
 	if index >= focusBase {
 		run.runScenario(genFocus(run.r.RandN("scenario", index), run.r.Seed, index))
 		return
@@ -631,9 +657,13 @@ func (run *runner) scenario(index int) {
 	run.runScenario(genScenario(run.r.RandN("scenario", index), run.r.Seed, index))
 }
 
-// slotIndex maps the s-th scenario of a run with n ordinary scenarios to its
-// index (the focus scenarios follow the ordinary ones).
-func slotIndex(s, n int) int {
+// slotIndex maps the s-th scenario of a run with n ordinary and nFocus focus
+// scenarios to its index (focus scenarios follow the ordinary ones, restart
+// scenarios the focus ones).
+func slotIndex(s, n, nFocus int) int {
+	if s >= n+nFocus {
+		return restartBase + (s - n - nFocus)
+	}
 	if s >= n {
 		return focusBase + (s - n)
 	}
@@ -696,6 +726,7 @@ func (run *runner) runScenario(sc *Scenario) {
 		}
 		run.checkLeases(w)
 		run.checkCuts(w)
+		run.restartSeen(w, p, res)
 		if debug {
 			kind, _ := w.oldData(res.reply, true)
 			rc := "nil"
@@ -723,6 +754,7 @@ func (run *runner) runScenario(sc *Scenario) {
 	if sc.SelfReferral {
 		warm = append(warm, w.mk("sr", v, "x.sr", dns.TypeA, rng))
 	}
+	warm = w.filterProbes(append(warm, w.restartProbes(rng)...))
 	for _, p := range warm {
 		if _, ok := step(p); !ok {
 			return
@@ -750,8 +782,9 @@ func (run *runner) runScenario(sc *Scenario) {
 	}
 
 	// ---- before the change: let the lease run, renew, keep names hot -------
+	hotRound := func() []probe { return w.filterProbes(append(w.hotRound(rng), w.restartProbes(rng)...)) }
 	round := func() bool {
-		for _, p := range w.hotRound(rng) {
+		for _, p := range hotRound() {
 			if _, ok := step(p); !ok {
 				return false
 			}
@@ -834,7 +867,7 @@ func (run *runner) runScenario(sc *Scenario) {
 				return
 			}
 		}
-		for _, p := range append(w.hotRound(rng), w.aliasProbes(arng)...) {
+		for _, p := range append(hotRound(), w.aliasProbes(arng)...) {
 			res, ok := step(p)
 			if !ok {
 				return
@@ -855,7 +888,14 @@ func (run *runner) runScenario(sc *Scenario) {
 	}
 	pastSeq := w.u.Log.Len()
 	judged := 0
+	// CD=1 client questions are answered through the CD=1 partition of the
+	// delegation cache: its (NS-TTL-only) bound applies to them
+	boundCD := max(bound, w.boundsFor(true, true).lease[v])
 	after := func(p probe, res result) {
+		bound := bound
+		if p.CD {
+			bound = boundCD
+		}
 		if res.vStart <= bound+graceAfter {
 			r.Count("probes_in_grace_window", 1)
 			return
@@ -926,18 +966,19 @@ func (run *runner) runScenario(sc *Scenario) {
 		}
 		return true
 	}
-	first := w.hotRound(rng)
+	first := hotRound()
 	first = append(first, w.core(v, rng)...)
 	if d > v {
 		first = append(first, w.core(d, rng)...)
 	}
+	first = w.filterProbes(first)
 	first = append(first, w.aliasProbes(arng)...)
 	if !afterRound(first) {
 		return
 	}
 	for i := 0; i < sc.Rounds; i++ {
 		jump := []time.Duration{time.Duration(float64(sc.HotTTL) * 0.93 * float64(time.Second)), 3 * time.Second, time.Duration(sc.LongTTL) * time.Second, 13 * time.Hour}[rng.IntN(4)]
-		if !run.advance(w, jump) || !afterRound(append(w.hotRound(rng), w.aliasProbes(arng)...)) {
+		if !run.advance(w, jump) || !afterRound(append(hotRound(), w.aliasProbes(arng)...)) {
 			return
 		}
 	}
@@ -971,6 +1012,11 @@ func (run *runner) runScenario(sc *Scenario) {
 	r.Count("referrals_in_windows_with_side_trees", w.unclean)
 	w.mu.Unlock()
 	r.Count("prefetch_refreshes_observed", int(prefetches()-prefetch0))
+	if w.restart != nil {
+		w.restart.mu.Lock()
+		r.Count("bare_referrals_sent", w.bareSent)
+		w.restart.mu.Unlock()
+	}
 	if judged > 0 {
 		r.Count("scenarios_judged", 1)
 		r.Count("judged_mode/"+sc.Mode, 1)
@@ -990,6 +1036,10 @@ func (run *runner) runScenario(sc *Scenario) {
 		}
 		if sc.DNSSECOff {
 			r.Count("judged_dnssec_off", 1)
+		}
+		if sc.Restart != nil {
+			r.Count("restart_scenarios_judged", 1)
+			r.Count("judged_restart_style/"+sc.Restart.Style, 1)
 		}
 		r.Distinct(sc.Shape())
 		r.Sample(map[string]any{"scenario": sc.String(), "shape": sc.Shape(), "bound_virtual": bound.String(), "judged_after_bound": judged, "referrals_logged": nref})
@@ -1122,6 +1172,46 @@ func (run *runner) dsSeen(w *world) {
 			if kind, _ := w.oldData(res.reply, false); kind != "" {
 				run.r.Count("unusable_ds_victim_served_insecure_before_change", 1)
 			}
+		}
+	}
+}
+
+// ---- restart scenarios ----------------------------------------------------------
+
+// restartSeen records (evidence only, no verdict) the look-ups that started
+// again inside this client question, and — when one of the resolver's own
+// look-ups did — the answer-cache entries that look-up wrote: checkCuts has
+// just compared their cut deadlines with the leases of the path; here it is
+// counted that they were there to be compared, and whether the descent that
+// produced them was indeed leased for less than the ancestor the abandoned
+// walk had reached.
+func (run *runner) restartSeen(w *world, p probe, res result) {
+	rs := w.sc.Restart
+	if rs == nil {
+		return
+	}
+	r := run.r
+	all, sub := w.restartsSince(res.from, p.CD)
+	r.Count("lookups_restarted_in_own_subquery", sub)
+	r.Count("lookups_restarted_in_client_tree", all-sub)
+	if p.Kind == "ds-cd1" && !w.changed && res.reply != nil && res.reply.Rcode == dns.RcodeSuccess {
+		r.Count("before_change_cd1_ds_answered", 1)
+	}
+	if sub == 0 || w.changed {
+		return
+	}
+	ch := w.rs.Cache()
+	if ch == nil {
+		return
+	}
+	anc := w.rs.Handler.VerifC08Lease(w.apex[rs.Sloppy], true)
+	for _, e := range ch.VerifStore().VerifDump() {
+		if e.Qtype != dns.TypeDS || !e.CD || !strings.EqualFold(e.Question, w.apex[rs.Bare]) {
+			continue
+		}
+		r.Count("subquery_entries_after_restart_inspected", 1)
+		if anc.Present && !e.CutUntil.IsZero() && e.CutUntil.Before(anc.ExpiresAt) {
+			r.Count("subquery_entries_after_restart_shorter_than_ancestor", 1)
 		}
 	}
 }
